@@ -1,3 +1,37 @@
-(* Props/C09.v — property C09 (work in progress). *)
+(* Props/C09.v — property C09: the context reader partitions the document without loss, duplication or reordering.
+   Statements only.  Proofs: Proofs/C09_reader.v, C09_heap.v, C09_addseg.v, C09_ctx.v; Spec/C09_spec.v.
+
+   PARTIAL.  Proved: for EVERY text, map environment and loop id for which iteration completes, if in the final store
+   every children list is in allocation order (no loop node was ever inserted before an older sibling), then the
+   segments of the yielded nodes, concatenated in the order yielded, are exactly the source segments in source order,
+   each with the set position counter and line number the reader had.  The premise is about the run, not the input:
+   it is NOT implied by completion — C09_unrestricted_is_false exhibits an (artificial) map with two sibling loops of
+   the same id on which a completed iteration reorders two segments.  A map-level sufficient condition is not proved.
+   Not proved either: that every tree is rooted at one instance of the requested loop and holds precisely that
+   instance's segments arranged by map path (checked on the implementation by the oracle of this check). *)
 From Coq Require Import String.
-From PX.Lib Require Import Base.
+From PX.Lib Require Import Base PyStr.
+From PX.Model Require Import Path Segment Raw Reader MapLoad Context CtxReader.
+From PX.Spec Require Import C09_spec.
+From PX.Proofs Require Import C09_ctx.
+
+Theorem C09_no_loss_no_reorder_partial :
+  forall load idx loop_id text r,
+    r = iter_segments_gen load idx loop_id text -> ir_res r = Ok tt ->
+    children_in_allocation_order (ir_heap r) ->
+    exists src yss,
+      source_items text = Ok src /\
+      Forall2 (fun y ys => yield_items y = Ok ys) (ir_yields r) yss /\
+      concat yss = src.
+Proof. exact ctx_no_loss_no_reorder_partial. Qed.
+Print Assumptions C09_no_loss_no_reorder_partial.
+
+Theorem C09_unrestricted_is_false :
+  ~ (forall load idx loop_id text r,
+       r = iter_segments_gen load idx loop_id text -> ir_res r = Ok tt ->
+       exists src yss,
+         source_items text = Ok src /\
+         Forall2 (fun y ys => yield_items y = Ok ys) (ir_yields r) yss /\
+         concat yss = src).
+Proof. exact ctx_no_loss_no_reorder_false. Qed.
+Print Assumptions C09_unrestricted_is_false.
